@@ -296,6 +296,9 @@ def job(shapes, full):
             if _count(s) <= 3:
                 # a node class that is falsy (empty container): a single falsy match is still the match
                 core.guard(t, "C14", {"engine": "E2", "module": MOD, "shape": s, "kind": "falsy"}, check_shape, t, s, None, True, "falsy")
+                # node classes that are tuples (record-like nodes)
+                for k in ("tuplenode", "tuple0"):
+                    core.guard(t, "C14", {"engine": "E2", "module": MOD, "shape": s, "kind": k}, check_shape, t, s, None, True, k)
         else:
             m = tree.Model.from_shape(s)
             dom = (ABSENT, "x", None)
